@@ -11,7 +11,8 @@ from vmon import oracle
 from vgen import reactions as G
 
 RULE = ("every run of the real Balancer (corpus + generated batches, batch sizes {1,7,25,None}, thresholds "
-        "{0,.5,.9}) and CLI runs: the stats dict / <out>.stats file is re-derived from the returned rows "
+        "{0,.5,.9}, batches that repeat one reaction several times, runs with malformed rows, runs that share a cache "
+        "directory with an earlier run that did not ask for statistics) and CLI runs: the stats dict / <out>.stats file is re-derived from the returned rows "
         "(and cross-checked with the snapshot taken after the rule-based validation); distinct non-trivial "
         "= distinct runs containing rows of at least 3 outcome classes")
 ASSUMPTIONS = ["relations between stage counters and rows are asserted for runs whose inputs are all valid "
@@ -48,7 +49,20 @@ def plan(tier, seed):
         inputs = lead + good[:3] + [rng.choice(bad_rows)] + good[3:]
         cases.append({"tag": "malformed_%d" % k, "inputs": inputs, "ids": [],
                       "cfg": {"batch_size": [1, 2, len(lead), None][k % 4], "threshold": [0, 0.5][k % 2], "n_jobs": 1}})
+    # the same reaction several times in one batch (every repeat is a row and is counted like one)
+    rep_src = [rx for _, rx in G.spectator_laden(rng, 6 if q else 40)] + \
+        ["CC(=O)OCC>>CCO", "CC(=O)Cl.NCC>>CC(=O)NCC", "CS(=O)(=O)OCC>>CCO", "CCO>>CC=O", "CC(=O)O.OCC>>CC(=O)OCC"]
+    for k in range(6 if q else 40):
+        a, b_ = rng.sample(rep_src, 2)
+        inputs = [a] * rng.randint(3, 5) + [b_] * 2 + [rx for _, rx in rng.sample(mixed, 3)]
+        rng.shuffle(inputs)
+        cases.append({"tag": "repeats_%d" % k, "inputs": inputs, "ids": [],
+                      "cfg": {"batch_size": [None, 4, None, 3][k % 4], "threshold": 0, "n_jobs": 1}})
     shards = rowlib.spread(cases, 14 if q else 44)
+    # histories over one cache directory: a run that does not ask for statistics, then one that does
+    for k in range(2 if q else 10):
+        rows = rowlib.corpus_cases(rng, 10, 10, [CFGS[0]], tag="cachehist")[0]
+        shards.append({"cache_history": {"inputs": rows["inputs"], "batch": [None, 4][k % 2], "threshold": [0, 0.5][k % 2]}})
     # CLI runs
     ncli = 2 if q else 8
     for i in range(ncli):
@@ -169,6 +183,30 @@ def run_cli(spec, res):
         shutil.rmtree(tmp, ignore_errors=True)
 
 
+def cache_history(spec, res):
+    """statistics of runs that share a cache directory: first a caching run that does not ask for statistics,
+    then caching runs that do (fresh Balancer objects, as separate sessions would be); the relations must hold for
+    every run that returns statistics"""
+    import copy
+    from vmon import pipeline
+    tmp = tempfile.mkdtemp(prefix="verif_c18cache_")
+    try:
+        inputs, bs, t = spec["inputs"], spec["batch"], spec["threshold"]
+        b1 = pipeline.make_balancer(confidence_threshold=t, n_jobs=1, cache=True, cache_dir=tmp)
+        b1.rebalance(copy.deepcopy(inputs), output_dict=True, batch_size=bs)  # no stats argument
+        for k in range(2):
+            b2 = pipeline.make_balancer(confidence_threshold=t, n_jobs=1, cache=True, cache_dir=tmp)
+            rows, stats, err = pipeline.run(b2, inputs, batch_size=bs)
+            res.count("cache_history_runs")
+            if err:
+                res.viol("stats_disagree_with_rows", relation="run_failed", stats=stats, where="cache_history",
+                         detail={"error": err}, cache_history=spec)
+                continue
+            relations(inputs, rows, stats, None, t, res, "cache_history", dict(cache_history=spec))
+    finally:
+        shutil.rmtree(tmp, ignore_errors=True)
+
+
 def work(shard, res, tier, seed):
     if "replay" in shard:
         v = shard["replay"]
@@ -180,6 +218,9 @@ def work(shard, res, tier, seed):
         return
     if "cli" in shard:
         run_cli(shard["cli"], res)
+        return
+    if "cache_history" in shard or ("replay" in shard and "cache_history" in shard["replay"]):
+        cache_history(shard.get("cache_history") or shard["replay"]["cache_history"], res)
         return
     for ci, case in enumerate(shard["cases"]):
         out = rowlib.run_case(case)
@@ -201,4 +242,4 @@ def work(shard, res, tier, seed):
 
 
 def conclude_args(res, tier, seed):
-    return {"need": {"runs": 20, "cli_runs": 1, "threshold_probe_runs": 5}, "min_cases": 10}
+    return {"need": {"runs": 20, "cli_runs": 1, "threshold_probe_runs": 5, "cache_history_runs": 2}, "min_cases": 10}
